@@ -56,6 +56,14 @@ def main():
         if not v['ok']: broken['translator'].append(f"Gen/{k}.lean from {v['src']}: {v['refused']}")
     # a refusal in a module this property does not import is not this property's business
     stats['gen'] = {k: {'src': v['src'], 'sha256': v.get('sha256'), 'ok': v['ok'], 'notes': v.get('notes')} for k, v in mine.items()}
+    if not args.no_build:
+        import transcheck
+        try:
+            nev, bad = transcheck.selfcheck(genrep, list(mine), np.random.default_rng([seed, 31337]), 150 if args.tier == 'quick' else 4000)
+        except Exception as e:
+            nev, bad = 0, [f'translator self-check crashed: {type(e).__name__}: {e}'[:300]]
+        stats['translator_selfcheck_evaluations'] = nev
+        for b_ in bad: broken['translator'].append('translator self-check: ' + b_)
 
     # ---- 2. build + audit
     module = f'LentilVerif.Props.{prop}'
@@ -251,6 +259,7 @@ def write_evidence(prop, args, seed, t0, H, stats, thms, discharged, violations)
             'theorems': stats.get('theorems', []),
             'unproven_clauses': list(getattr(H, 'UNPROVEN', [])),
             'translated_sources': stats.get('gen', {}),
+            'translator_selfcheck_evaluations': stats.get('translator_selfcheck_evaluations', 0),
             'evaluations': stats.get('evaluations', 0),
             'distinct_nontrivial': stats.get('distinct_nontrivial', 0),
             'distinct': stats.get('distinct', 0),
